@@ -78,7 +78,7 @@ impl World for StateWorld {
         &["C01", "C11", "C13", "C17", "C18"]
     }
     fn configs(&self, tier: Tier) -> Vec<Cfg> {
-        let k = if tier == Tier::Quick { 4 } else { 6 };
+        let k = if tier == Tier::Quick { 5 } else { 6 };
         [FL_LOCAL, FL_SYNC, FL_CHECKED, FL_SHARED, FL_SHARED_CHECKED].iter().map(|&flavour| Cfg { flavour, mode: 0, x: 0, y: 0, k }).collect()
     }
     fn enum_configs(&self, tier: Tier) -> Vec<(Cfg, usize)> {
